@@ -368,4 +368,23 @@ theorem export_init (ext : Ext) (g : Genesis) (st : Store) (hv : g.validate ext 
       exact ⟨_, _, this, prefix_msgr _, rfl⟩
 
 -- TMPCUT
+
+/-! ### the other direction, and the KNOWN FINDING -/
+
+def toyExt : Ext := ⟨fun b => b, fun _ _ => none, fun b => some b, fun b => some b, id, fun _ _ => false, fun _ => false, id⟩
+
+/-- a reachable state with an ownership transfer in flight: owner [1] has nominated [9]. -/
+def inFlight : Store :=
+  ((Store.applyAll [] (initWrites toyExt ⟨[1], [2], [3], [4], [], [], some false, some false, none, none, none, [], [], []⟩)).set
+    Key.pendingOwner (.role [9]))
+
+/-- **KNOWN FINDING (property C17, pending owner)**: exporting a state with an ownership transfer in flight and
+    importing the export into an empty chain does NOT reproduce every stored entry — the pending-owner entry
+    has no genesis field and is lost (the nominee's AcceptOwner then fails on the imported chain).
+    Kernel-checked on a concrete reachable state; the same witness is replayed on the real code by the check. -/
+theorem pending_owner_lost :
+    ∃ g st', exportG inFlight = .ok g ∧ Genesis.init toyExt [] g = .ok st' ∧
+      inFlight.get Key.pendingOwner = some (.role [9]) ∧ st'.get Key.pendingOwner = none := by
+  refine ⟨_, _, rfl, rfl, ?_, ?_⟩ <;> decide +kernel
+
 end Cctp.C17
